@@ -65,12 +65,13 @@ Proof.
   - rewrite (send_finalized_err m Hf) in H. discriminate.
   - inversion H; subst. exact Hf.
   - inversion H; subst. exact Hf.
+  - discriminate.
 Qed.
 
 (* once finalized, Send/Drop of the original error and nothing of the original reaches the wire *)
 Lemma apply_op_dead : forall o m, finalized m = true ->
   match o with
-  | SendOrig | Drop => apply_op o m = None
+  | SendOrig | Drop | TakeFail => apply_op o m = None
   | _ => exists m' cs, apply_op o m = Some (m', [], cs) /\ finalized m' = true /\ dropped m' = dropped m
   end.
 Proof.
@@ -80,6 +81,7 @@ Proof.
   - rewrite (send_finalized_err m Hf). reflexivity.
   - eauto.
   - eexists _, _. split; [reflexivity|]. cbn. auto.
+  - reflexivity.
 Qed.
 
 (* no_resurrection, for every sequence of operations whatsoever *)
@@ -116,7 +118,17 @@ Proof.
       intros i o Hi Ho. destruct i; cbn in *.
       * inversion Hi; subst. destruct Ho; discriminate.
       * eapply Hall; eauto.
+    + (* TakeFail *) specialize (IH m Hf). destruct (apply_ops t m) as [[m'' ws'] oks].
+      destruct IH as (Hw & Hf' & Hd' & Hall). repeat split; try assumption.
+      intros i o Hi Ho. destruct i; cbn in *.
+      * inversion Hi; subst. destruct Ho; discriminate.
+      * eapply Hall; eauto.
 Qed.
+
+(* a failed take() claims nothing: the flags are untouched, nothing is emitted *)
+Lemma failed_take_noop : forall ops m,
+  apply_ops (TakeFail :: ops) m = (let '(m', ws, oks) := apply_ops ops m in (m', ws, false :: oks)).
+Proof. intros. reflexivity. Qed.
 
 (* at most once at the level of a single message object: whatever sequence of operations is
    applied to a message that came from the wire, it reaches the transport at most once, and
@@ -144,6 +156,7 @@ Proof.
     unfold good, sent. rewrite Hf, Hf', Hd', Hdm. cbn. repeat split; auto; try (intros; discriminate).
   - inversion H; subst; clear H. unfold good, sent, count_msgs; cbn. repeat split; auto; lia.
   - inversion H; subst; clear H. unfold good, sent, count_msgs; cbn. repeat split; auto; lia.
+  - discriminate.
 Qed.
 
 Lemma count_msgs_app : forall a b, count_msgs (a ++ b) = count_msgs a + count_msgs b.
